@@ -33,6 +33,7 @@ structure Entry where
   deriving Repr, DecidableEq
 
 structure State where
+  started : Bool := false
   next : Nat := 0
   nextPid : Nat := 0
   delta : Nat := 0
@@ -43,7 +44,8 @@ structure State where
 
 abbrev Result := Bool × Nat × Nat
 
-def State.reset (_ : State) : State := {}
+/-- Go `reset()` clears every field except `started` -/
+def State.reset (m : State) : State := { started := m.started }
 
 /-- `addMapping`; `none` = index panic. -/
 def addMapping (P : Params) (m : State) (seqno delta pidDelta : Nat) : Option State :=
@@ -111,8 +113,8 @@ def direct (m : State) (seqno : Nat) : Option Result :=
 /-- `Map.Map`. -/
 def mapOp (P : Params) (m : State) (seqno pid : Nat) : Option (State × Result) :=
   if m.delta = 0 && m.entries.length = 0 then
-    let m' := if compare m.next seqno ≤ 0 || sub16 m.next seqno > P.W
-              then { m with next := add16 seqno 1, nextPid := pid } else m
+    let m' := if !m.started || compare m.next seqno ≤ 0 || sub16 m.next seqno > P.W
+              then { m with started := true, next := add16 seqno 1, nextPid := pid } else m
     some (m', (true, seqno, 0))
   else if compare m.next seqno ≤ 0 then
     if sub16 seqno m.next > P.W then
@@ -140,7 +142,7 @@ def reverse (m : State) (seqno : Nat) : Option Result :=
 
 /-- `Map.Drop`. -/
 def dropOp (P : Params) (m : State) (seqno pid : Nat) : State × Bool :=
-  if seqno ≠ m.next then (m, false)
+  if !m.started || seqno ≠ m.next then (m, false)
   else
     let entries :=
       if m.entries.length = 0 then
